@@ -161,6 +161,11 @@ func GenScenario(t *rapid.T, o GenOpts) *Scenario {
 		ClientNxt: oneOf(t, "isn", uint32(0), 1, 0x7fffffff, 0x80000001, 0xffffff00, 0xffffffff, 0xfffffff0, 0x3c4d5e6f),
 		ServerISN: uint32(rapid.Uint32().Draw(t, "srv_isn")), SynAckUs: oneOf(t, "synack_us", int64(0), 200, 20000)}
 
+	if sc.Variant == "sack" && oneOf(t, "isn_straddle", false, false, true) {
+		// the 32-bit sequence space wraps inside the probed range: isn + ttl crosses 2^32 for some probed TTL
+		k := rapid.IntRange(sc.MinTTL, sc.MaxTTL+1).Draw(t, "isn_wrap_at")
+		sc.Sack.ClientNxt = uint32(0x100000000 - int64(k))
+	}
 	// network behaviour
 	span := sc.MaxTTL - sc.MinTTL
 	dsel := oneOf(t, "dest_sel", "in", "in", "in", "none", "below", "first", "last")
@@ -200,6 +205,16 @@ func GenScenario(t *rapid.T, o GenOpts) *Scenario {
 			}
 		}
 		h.DestKind = oneOf(t, label+"_destkind", destKinds(kind)...)
+		if o.Dups && oneOf(t, label+"_both", false, false, false, true) {
+			h.Both = true
+			h.BothDelayUs = genDelayUs(t, sc, label+"_both_delay")
+			if o.OwnWindow && sc.Serial() {
+				h.BothDelayUs %= int64(sc.TimeoutMs)*1000/2 + 1
+			}
+		}
+		if kind == "tcp-ack" && oneOf(t, label+"_acklost", false, false, false, true) {
+			h.AckLost = true
+		}
 		if o.WrongPlace && oneOf(t, label+"_wrong", false, false, true) {
 			if v6 {
 				h.FromOther = "2001:db8:0:99::99"
